@@ -193,6 +193,69 @@ impl<const N: usize> io::BufRead for ArrReader<N> {
     }
 }
 
+/// ArrReader whose end of input is an observation point instead of an error path: `read_exact`
+/// running out of data reaches the witness `eof_in_read_exact` and ends the path there
+/// (assume(false)): the `?`-propagated error that follows is not traversed, because formatting
+/// and dropping an io::Error is what the engine cannot decide. `read` / `fill_buf` reporting
+/// end of input (Ok(0) / empty slice) only set `eof_seen`, so code that takes that for a
+/// value keeps running and is judged by the harness assertion.
+pub struct EofCutReader<const N: usize> {
+    pub buf: [u8; N],
+    pub pos: usize,
+    pub end: usize,
+    pub eof_seen: bool,
+}
+
+impl<const N: usize> EofCutReader<N> {
+    pub fn new(buf: [u8; N], end: usize) -> Self {
+        EofCutReader { buf, pos: 0, end, eof_seen: false }
+    }
+}
+
+impl<const N: usize> io::Read for EofCutReader<N> {
+    fn read(&mut self, dst: &mut [u8]) -> io::Result<usize> {
+        let avail = self.end - self.pos;
+        let n = if dst.len() < avail { dst.len() } else { avail };
+        if n == 0 && dst.len() > 0 {
+            self.eof_seen = true;
+        }
+        let mut i = 0;
+        while i < n {
+            dst[i] = self.buf[self.pos + i];
+            i += 1;
+        }
+        self.pos += n;
+        Ok(n)
+    }
+    fn read_exact(&mut self, dst: &mut [u8]) -> io::Result<()> {
+        let avail = self.end - self.pos;
+        if dst.len() > avail {
+            self.eof_seen = true;
+            vcover!(true, "eof_in_read_exact");
+            assume(false);
+        }
+        let mut i = 0;
+        while i < dst.len() {
+            dst[i] = self.buf[self.pos + i];
+            i += 1;
+        }
+        self.pos += dst.len();
+        Ok(())
+    }
+}
+
+impl<const N: usize> io::BufRead for EofCutReader<N> {
+    fn fill_buf(&mut self) -> io::Result<&[u8]> {
+        if self.pos == self.end {
+            self.eof_seen = true;
+        }
+        Ok(&self.buf[self.pos..self.end])
+    }
+    fn consume(&mut self, amt: usize) {
+        self.pos += amt;
+    }
+}
+
 /// A BufRead that exposes its data in fragments chosen by `cuts` (one decision per
 /// fill_buf / read call): fill_buf shows a non-empty prefix of 1 + cuts[k] % MAXF bytes of
 /// what remains, read returns at most that many. Models short reads and refill patterns.
